@@ -41,6 +41,7 @@ def alphabet(p, p1, q):
         ("P", [(p, A), (p, B)]),
         ("P", [(p, B), (q, B)]),
         ("P", [(p, A), (p1, B), (q, A)]),
+        ("P", [(p, A), (p1, B), (p, C)]),
         ("P1", [(p, b"\x33")]),
         ("SPA+REFRESH", [(p, C)]),
         ("REFRESH", []),
@@ -279,6 +280,41 @@ def _job(job):
 
 
 _ALPHA = {}
+_POS = {}
+
+
+def all_messages():
+    """Every record list of length 0..3 over positions {p,p+1,q} x values {A,B}, plus length-3
+    lists whose last record uses a third value (so last-writer-wins is visible)."""
+    p, p1, q = _POS["ppq"]
+    recs = [(pos, v) for pos in (p, p1, q) for v in (A, B)]
+    out = [[]]
+    for n in (1, 2, 3):
+        for t in itertools.product(recs, repeat=n):
+            out.append(list(t))
+    for a, b in itertools.product(recs, repeat=2):
+        for pos in (p, p1, q):
+            out.append([a, b, (pos, C)])
+    return out
+
+
+def _msg_job(job):
+    kind, lo, hi, pre = job
+    lib.reset_library()
+    msgs = all_messages()[lo:hi]
+    bad = []
+    ends = set()
+    for m in msgs:
+        hist = ([("SPA+REFRESH", [(_POS["ppq"][0], C)])] if pre else []) + [("P", m)]
+        why, step, end = (_run_async if kind == "async" else _run_threaded)(hist)
+        ends.add(end)
+        if why:
+            bad.append((f"C05|{kind}|{why[0]}|single-message",
+                        f"{kind} client, one STATP with records {[(pos, d.hex()) for pos, d in m]}"
+                        f"{' after a refresh' if pre else ''}: {why[1]}",
+                        {"kind": kind, "message": [[pos, d] for pos, d in m], "pre": pre}))
+            break
+    return len(msgs), bad, ends
 
 
 def _init_alpha():
@@ -290,6 +326,7 @@ def _init_alpha():
     p, p1, q = _positions(lc.begin)
     if q + 2 > lc.begin + lc.end or q + 2 > 1024:
         raise core.HarnessError("C05: positions outside the refresh window")
+    _POS["ppq"] = (p, p1, q)
     _ALPHA["async"] = alphabet(p, p1, q)
     _ALPHA["threaded"] = alphabet(p, p1, q)
 
@@ -316,6 +353,22 @@ def run(ctx):
         ctx.log(f"{kind}: {len(jobs)} histories to depth {depth[kind]} over {n_alpha} events")
         ctx.set(f"histories_{kind}", len(jobs))
         ctx.set(f"depth_{kind}", depth[kind])
+    # every single message (record lists up to length 3) on a fresh client, alone and after a refresh
+    nmsg = len(all_messages())
+    jobs = []
+    step = max(1, nmsg // (ctx.workers * 2))
+    for kind in ("async", "threaded"):
+        for pre in (False, True):
+            for lo in range(0, nmsg, step):
+                jobs.append((kind, lo, min(nmsg, lo + step), pre))
+    for n, bad, ends in core.pimap(ctx, _msg_job, jobs):
+        traces += n
+        transitions += n
+        states.update(("msg", e) for e in ends)
+        for b in bad:
+            ctx.violation(*b)
+    ctx.set("single_message_sweep", nmsg * 4)
+    ctx.log(f"single-message sweep: {nmsg} record lists x 2 clients x (alone, after refresh)")
     ctx.set("states", len(states))
     ctx.set("transitions", transitions)
     ctx.set("traces_validated_against_impl", traces)
@@ -331,9 +384,16 @@ def run(ctx):
 
 def replay(ctx, data):
     _init_alpha()
-    res, _ = _job((data["kind"], tuple(data["history"])))
-    if res:
-        ctx.violation(*res)
+    if "message" in data:
+        m = [(pos, d) for pos, d in data["message"]]
+        hist = ([("SPA+REFRESH", [(_POS["ppq"][0], C)])] if data.get("pre") else []) + [("P", m)]
+        why, step, end = (_run_async if data["kind"] == "async" else _run_threaded)(hist)
+        if why:
+            ctx.violation(f"C05|{data['kind']}|{why[0]}|single-message", why[1], data)
+    else:
+        res, _ = _job((data["kind"], tuple(data["history"])))
+        if res:
+            ctx.violation(*res)
     ctx.set("states", 1)
     ctx.set("transitions", 1)
     ctx.set("traces_validated_against_impl", 1)
